@@ -1008,18 +1008,55 @@ var ruleScopeS12 = &Rule{
 				return ok && fieldName(fa2.X.Type(), fa2.Field) == "curScope"
 			}
 			any := false
+			viaExit := 0
+			viaExitBad := ""
 			for _, b := range f.Blocks {
 				for _, ins := range b.Instrs {
 					if isRestore(ins) {
 						any = true
 					}
+					// exitScope(saved): the callee restores the scope itself — then inside it nothing may run after the store
+					if call, ok := ins.(*ssa.Call); ok && isExit(ins) {
+						g := call.Call.StaticCallee()
+						if pi := storesParamIntoField(g, "curScope"); pi >= 0 {
+							viaExit++
+							isSt := func(i ssa.Instruction) bool {
+								st, ok := i.(*ssa.Store)
+								if !ok {
+									return false
+								}
+								fa, ok := st.Addr.(*ssa.FieldAddr)
+								return ok && fieldName(fa.X.Type(), fa.Field) == "curScope"
+							}
+							isCall := func(i ssa.Instruction) bool {
+								cc, ok := i.(*ssa.Call)
+								if !ok {
+									return false
+								}
+								_, builtin := cc.Call.Value.(*ssa.Builtin)
+								return !builtin
+							}
+							if late := mayFollow(g, isSt, isCall); len(late) > 0 {
+								viaExitBad = c.Pos(late[0].Pos())
+							}
+						}
+					}
 				}
 			}
-			if !any {
+			if !any && viaExit == 0 {
 				continue
 			}
 			n++
 			key := "SCOPE/S12:" + f.Name()
+			if !any {
+				if viaExitBad != "" {
+					obs = append(obs, Ob{Key: key, Site: viaExitBad, Verdict: VIOLATION,
+						Note: "exitScope puts the saved scope back itself and then still calls something: the sweep works on the enclosing scope"})
+				} else {
+					obs = append(obs, Ob{Key: key, Site: c.Pos(f.Pos()), Verdict: OK, Note: "exitScope restores the saved scope as its last step"})
+				}
+				continue
+			}
 			bad := mustPrecede(f, isExit, isRestore)
 			if len(bad) == 0 {
 				obs = append(obs, Ob{Key: key, Site: c.Pos(f.Pos()), Verdict: OK})
@@ -1358,5 +1395,59 @@ var ruleAnnA10 = &Rule{
 		}
 		obs = append(obs, floor("ANN/A10-printer-keyword-readable", "type openings written by the printer", n, 2))
 		return obs
+	},
+}
+
+// ---------------------------------------------------------------------------------------------
+// PARSE/vararg-last: nothing is read into a parameter list after `...`
+
+var ruleParseVarargLast = &Rule{
+	Name:    "PARSE/vararg-last",
+	NeedSSA: true,
+	Text:    "parlist ::= namelist [',' '...'] | '...': in the parser function that reads a parameter list (Parser.parseParList) no token-consuming call of the lexer can follow, on any path inside the function, the call that consumes the `...` token (NextTokenKind with the constant TkVararg) — a loop that goes on after the vararg accepts `function f(a, ..., b) end`",
+	Run: func(c *Ctx) []Ob {
+		f := c.SSAFunc(modPath+"/langserver/check/compiler/parser", "Parser", "parseParList")
+		vk, okV := constIntValue(c, lexerPkgPath, "TkVararg")
+		if f == nil || !okV {
+			return []Ob{{Key: "PARSE/vararg-last:slots", Verdict: UNDECIDED, Note: "slot unresolved: Parser.parseParList / lexer.TkVararg"}}
+		}
+		isVararg := func(i ssa.Instruction) bool {
+			call, ok := i.(*ssa.Call)
+			if !ok {
+				return false
+			}
+			g := call.Call.StaticCallee()
+			if g == nil || g.Name() != "NextTokenKind" || len(call.Call.Args) != 2 {
+				return false
+			}
+			k, ok := call.Call.Args[1].(*ssa.Const)
+			return ok && k.Value != nil && k.Value.Kind() == constant.Int && k.Int64() == vk
+		}
+		ma := c.mustAdvanceSet()
+		isStep := func(i ssa.Instruction) bool {
+			call, ok := i.(*ssa.Call)
+			if !ok {
+				return false
+			}
+			g := call.Call.StaticCallee()
+			return g != nil && (isTokenStep(g) || ma[g])
+		}
+		n := 0
+		for _, b := range f.Blocks {
+			for _, ins := range b.Instrs {
+				if isVararg(ins) {
+					n++
+				}
+			}
+		}
+		if n == 0 {
+			return []Ob{{Key: "PARSE/vararg-last:parseParList", Site: c.Pos(f.Pos()), Verdict: UNDECIDED, Note: "no NextTokenKind(TkVararg) call found in parseParList"}}
+		}
+		bad := mayFollow(f, isVararg, isStep)
+		if len(bad) > 0 {
+			return []Ob{{Key: "PARSE/vararg-last:parseParList", Site: c.Pos(bad[0].Pos()), Verdict: VIOLATION,
+				Note: "a token is consumed after the `...` of a parameter list: `function f(a, ..., b) end` is accepted"}}
+		}
+		return []Ob{{Key: "PARSE/vararg-last:parseParList", Site: c.Pos(f.Pos()), Verdict: OK, Note: "nothing is read after `...`"}}
 	},
 }
